@@ -206,7 +206,7 @@ pub fn l2_equal<const L: usize>(a: &Level2Data<L>, b: &Level2Data<L>) -> bool {
 
 /// valid-history assumptions for a whole batch: injected volume stays < 2^32, no active order
 /// carries the step's start time as queue time (batch <= step size in every earlier step)
-pub fn assume_batch_valid<const N: usize>(p: &Plain<N>, evs: &[Ev], nb: usize, discipline: bool) {
+pub fn assume_batch_valid<const N: usize>(p: &Plain<N>, evs: &[Ev], nb: usize, _discipline: bool) {
     let mut total: u64 = 0;
     let mut i = 0;
     while i < N {
@@ -214,9 +214,6 @@ pub fn assume_batch_valid<const N: usize>(p: &Plain<N>, evs: &[Ev], nb: usize, d
             let o = entry_order(&p.e[i]);
             if o.status == Status::New || o.status == Status::Active {
                 total += o.vol as u64;
-            }
-            if discipline && o.status == Status::Active {
-                assume(entry_key_time(&p.e[i]) < p.t);
             }
         }
         i += 1;
